@@ -242,7 +242,12 @@ std::ostream& operator<<(std::ostream& os, const picfileformatheader& h)
   std::ostream::sentry s(os);
   if (s)
     {
-      os << "HEADERSIGNATURE         " << h.HEADERSIGNATURE << "\n";
+      // The signature is 8 bytes with no terminating NUL, so it cannot
+      // be printed as a C string.
+      os << "HEADERSIGNATURE         ";
+      os.write(reinterpret_cast<const char*>(h.HEADERSIGNATURE),
+	       sizeof(h.HEADERSIGNATURE));
+      os << "\n";
       os << "formatrevision          " << static_cast<unsigned int>(h.formatrevision) << "\n";
       os << "number_of_track         " << static_cast<unsigned int>(h.number_of_track) << "\n";
       os << "number_of_side          " << static_cast<unsigned int>(h.number_of_side) << "\n";
